@@ -51,10 +51,17 @@ add("C12",
     "(== iff equal (name, module)), C12_hash, C12_trichotomy / C12_lt_irrefl / C12_lt_trans (strict total order), C12_derived (<=, >, >=, != and reflected forms), "
     "C12_none_last (all six operators, both operand orders, interfaces and class specifications), C12_mixed_order + C12_impl_identity (class specifications ordered "
     "with interfaces by the same key, identity equality), C12_twin (IB_richcompare = Python reference on every operand incl. foreign objects), C12_lt_by_key + "
-    "C12_sort (what sorted() sees is a function of the keys alone; result is an ordered permutation). The model of CPython's operator protocol and of both twins is "
+    "C12_sort (what sorted() sees is a function of the keys alone; result is an ordered permutation); C12_defers (against a foreign object without __name__/__module__ "
+    "every comparison method of an interface / class specification answers NotImplemented, both twins), C12_reflected (so `a op b` and the mirrored `b op' a` agree "
+    "whatever that object's own methods answer), C12_proxy / C12_sentinel (transparent proxies of an interface and constant-answer sentinels such as mock.ANY get the "
+    "same answer from both sides); for interfaces the constructor leaves None-named (Element.__init__ files a docless name with a blank as the docstring; mkIface_cases) "
+    "C12_anon_order / C12_anon_eq_iff / C12_anon_hash / C12_anon_none_last / C12_sort_anon (pairs (None, module): the modules decide, equal pairs hash equal, before None). "
+    "The model of CPython's operator protocol and of both twins is "
     "compared with the real code on every ordered pair x 6 operators + hash relation + sorts, on 2 implementations x 3 PYTHONHASHSEED values, and every answer is "
     "judged against the statement.",
-    "Guards: foreign operands have string __name__/__module__ (the non-string case is the C10 finding); no operand's type subclasses the other's.",
+    "Guards: foreign operands have string __name__/__module__ or none at all (the non-string case is the C10 finding); a None-named interface against an operand "
+    "with a string name is outside the domain 'all name/module strings' (Python cannot order None and str: TypeError; C answers ==/!= False/True) - those pairs are "
+    "executed and counted (pairs_outside_domain_none_vs_str_name, outside_domain_answers_*), not judged; no operand's type subclasses the other's.",
     "Lean 4 proof (order laws + twin equality + sorting) + differential correspondence x hash seeds + statement oracle", "6/C12")
 add("C14",
     "Theorems over all __conform__ behaviours, hook lists of any length, alternates and custom __adapt__: C14_order (result AND call log = the declarative "
